@@ -123,6 +123,13 @@ func buildTree(spec *ukit.Spec) (*built, *ukit.Spec) {
 }
 
 func (b *built) apply(s *ukit.Spec, ns string) {
+	if strings.HasSuffix(ns, "!") {
+		// a failed application: the table lacks every object, so the first reference of that namespace that is reached
+		// panics (the documented answer to a dangling reference). A caller that recovers must find every reference as it
+		// was: nothing of that namespace can have been linked by this call, whatever the order.
+		ukit.Call(func() { b.scope.ApplyNamespace(map[string]*schema.ObjectSchema{}, strings.TrimSuffix(ns, "!")) })
+		return
+	}
 	switch ns {
 	case "":
 		b.scope.ApplySelf()
@@ -233,7 +240,7 @@ func checkTree(spec *ukit.Spec, idx int, res *ux.Result) {
 	fail := func(sig, detail string, seq []string) {
 		res.Add(sig, detail+"\ntree: "+spec.String(), replay{"tree", spec, seq, idx})
 	}
-	alphabet := []string{"n1", "n2", ""}
+	alphabet := []string{"n1", "n2", "", "n1!", "n2!"}
 	type node struct{ seq []string }
 	seen := map[string]bool{}
 	frontier := []node{{nil}}
@@ -244,17 +251,24 @@ func checkTree(spec *ukit.Spec, idx int, res *ux.Result) {
 			// every iteration order (one deviating map iteration at a time, all permutations) of building the tree and
 			// applying the namespaces must give the same, lexically correct, link state
 			var key, diff string
-			var panicked string
+			var panicked, lsPanic string
 			keys := map[string]string{}
 			e := &mcrt.Explorer{MaxPreempt: 0, MaxDelay: -1, MaxDeviate: 1, MaxSteps: 1 << 20, Body: func() {
 				b, sp := buildTree(spec)
 				for _, ns := range nd.seq {
 					b.apply(sp, ns)
 				}
-				key, diff = b.linkState(sp)
+				lsPanic = ""
+				if pan, val, stack := ukit.Call(func() { key, diff = b.linkState(sp) }); pan {
+					lsPanic = fmt.Sprintf("%s: %s", lib.PanicSite(stack), lib.PanicClass(fmt.Sprint(val)))
+					key = "panic"
+				}
 			}, Check: func(r *mcrt.Result) bool {
 				res.Evaluations++
 				res.Transitions += len(nd.seq)
+				if r.Status == mcrt.StComplete && lsPanic != "" {
+					fail("panic while inspecting the references: "+lsPanic, fmt.Sprintf("after applying namespaces %q (a name ending in ! is an application with an empty table, recovered)", nd.seq), nd.seq)
+				}
 				switch r.Status {
 				case mcrt.StPanic:
 					panicked = fmt.Sprintf("panic in %s: %s", lib.PanicSite(r.PanicStack), lib.PanicClass(r.PanicValue))
@@ -462,7 +476,7 @@ func main() {
 			}
 			return res.Findings
 		},
-		Rule: "scope trees = outer scope {Root, A, B} with a nested scope {I, A} whose object id collides with the outer one; one reference to A at each of 4 positions (property, list item, map value, one-of member) x 3 namespaces in the outer root and likewise in the inner root, plus fixed references to B (self and n1) and a back-reference; objects with equal ids carry different marker enums so that what a reference denotes is observable. For every tree: breadth-first search over all sequences (depth <= 3) of ApplyNamespace calls over {n1, n2, self}; state = which reference is linked to which object; every state is compared with the lexical reference resolver (ObjectReady, target, ValidateReferences). The first fully linked state is compared with the mechanically inlined twin on every raw value of V(tree) for Unserialize / Validate / Serialize. Three recursive graphs (list, mutual, map + one-of) are run on valid and invalid inputs of nesting depth 0..50; non-trivial = trees with more than one link state",
+		Rule: "scope trees = outer scope {Root, A, B} with a nested scope {I, A} whose object id collides with the outer one; one reference to A at each of 4 positions (property, list item, map value, one-of member) x 3 namespaces in the outer root and likewise in the inner root, plus fixed references to B (self and n1) and a back-reference; objects with equal ids carry different marker enums so that what a reference denotes is observable. For every tree: breadth-first search over all sequences (depth <= 3) of ApplyNamespace calls over {n1, n2, self, n1 with an empty table, n2 with an empty table} (the last two fail with the documented panic for a dangling reference, which is recovered: every reference must be as before); state = which reference is linked to which object; every state is compared with the lexical reference resolver (ObjectReady, target, ValidateReferences). The first fully linked state is compared with the mechanically inlined twin on every raw value of V(tree) for Unserialize / Validate / Serialize. Three recursive graphs (list, mutual, map + one-of) are run on valid and invalid inputs of nesting depth 0..50; non-trivial = trees with more than one link state",
 		Assumptions: []string{
 			"states are rebuilt from a fresh instance per BFS node (live schemas cannot be cloned)",
 			"inlining is only defined for non-recursive graphs",
